@@ -21,7 +21,8 @@ import (
 
 func init() { register("shutdown-trace", shutdownTrace) }
 
-// request frame: [len=16][req id][conn id][handler duration ms]; response: [len=12][req id][conn id]; close message: [len=8][0xffffffff]
+// request frame: [len=16][req id][conn id][handler duration ms] or [len=20][req id][conn id][handler duration ms][response size];
+// response: [len][req id][conn id][padding up to the response size, default 12]; close message: [len=8][0xffffffff]
 type sdProto struct{}
 
 func (sdProto) Invoke(ctx context.Context, pkg []byte) []byte {
@@ -34,8 +35,12 @@ func (sdProto) Invoke(ctx context.Context, pkg []byte) []byte {
 		if d > 0 {
 			time.Sleep(time.Duration(d) * time.Millisecond)
 		}
-		rsp := make([]byte, 12)
-		binary.BigEndian.PutUint32(rsp, 12)
+		size := uint32(12)
+		if len(pkg) >= 20 && binary.BigEndian.Uint32(pkg[16:20]) > size { // a response that does not fit into the socket buffers
+			size = binary.BigEndian.Uint32(pkg[16:20])
+		}
+		rsp := make([]byte, size)
+		binary.BigEndian.PutUint32(rsp, size)
 		copy(rsp[4:], pkg[4:12])
 		return rsp
 	}
@@ -126,17 +131,42 @@ type sdRun struct {
 	ord     []int // requests sent so far per connection
 	readers sync.WaitGroup
 	served  chan struct{}
-	calls   sync.WaitGroup // calls of Shutdown in flight
+	calls   sync.WaitGroup  // calls of Shutdown in flight
+	hold    []chan struct{} // per connection: non-nil = its client does not read before the channel is closed (a slow client)
+	relOnce []sync.Once
 }
 
-func sdOpen(n, q, nconn int) *sdRun {
-	x := &sdRun{rec: tr.New(), nconn: nconn, ord: make([]int, nconn+1), served: make(chan struct{})}
+// sdOpt: what a run of kind "slow" needs on top of the defaults
+type sdOpt struct {
+	slow map[int]bool // connections whose client is slow to read (small receive buffer, starts reading when released)
+	idle bool         // the server has a read timeout (1 s) and an idle timeout (0 s): a connection with nothing outstanding is closed at the next read timeout
+}
+
+func sdOpen(n, q, nconn int) *sdRun { return sdOpenOpt(n, q, nconn, sdOpt{}) }
+
+// release lets the slow client of connection c start reading
+func (x *sdRun) release(c int) {
+	if x.hold[c] != nil {
+		x.relOnce[c].Do(func() { close(x.hold[c]) })
+	}
+}
+
+func sdOpenOpt(n, q, nconn int, opt sdOpt) *sdRun {
+	x := &sdRun{rec: tr.New(), nconn: nconn, ord: make([]int, nconn+1), served: make(chan struct{}),
+		hold: make([]chan struct{}, nconn+1), relOnce: make([]sync.Once, nconn+1)}
+	for c := range opt.slow {
+		x.hold[c] = make(chan struct{})
+	}
 	rec := x.rec
 	ln, _ := net.Listen("tcp", "127.0.0.1:0")
 	addr := ln.Addr().String()
 	ln.Close()
-	x.srv = transport.NewTarsServer(sdProto{}, &transport.TarsServerConf{Proto: "tcp", Address: addr, MaxInvoke: int32(n), QueueCap: q,
-		AcceptTimeout: 500 * time.Millisecond, IdleTimeout: 600 * time.Second, TCPReadBuffer: 1 << 16, TCPWriteBuffer: 1 << 16})
+	conf := &transport.TarsServerConf{Proto: "tcp", Address: addr, MaxInvoke: int32(n), QueueCap: q,
+		AcceptTimeout: 500 * time.Millisecond, IdleTimeout: 600 * time.Second, TCPReadBuffer: 1 << 16, TCPWriteBuffer: 1 << 16}
+	if opt.idle {
+		conf.ReadTimeout, conf.IdleTimeout = time.Second, 0
+	}
+	x.srv = transport.NewTarsServer(sdProto{}, conf)
 	if err := x.srv.Listen(); err != nil {
 		panic(err)
 	}
@@ -146,7 +176,7 @@ func sdOpen(n, q, nconn int) *sdRun {
 	sd.conns = map[string]int{}
 	sd.closed, sd.eof, sd.aborted, sd.noted = map[int]bool{}, map[int]bool{}, map[int]bool{}, map[int]bool{}
 	sd.mu.Unlock()
-	rec.Emit("Config", "n", n, "q", q, "conns", nconn)
+	rec.Emit("Config", "n", n, "q", q, "conns", nconn, "idle", opt.idle)
 	go func() { x.srv.Serve(); close(x.served) }()
 	x.conns = make([]net.Conn, nconn+1)
 	for c := 1; c <= nconn; c++ {
@@ -155,6 +185,9 @@ func sdOpen(n, q, nconn int) *sdRun {
 			panic(err)
 		}
 		x.conns[c] = k
+		if tc, ok := k.(*net.TCPConn); ok && x.hold[c] != nil {
+			tc.SetReadBuffer(1 << 16) // no autotuning: what the server writes beyond the socket buffers waits for the client
+		}
 		sd.mu.Lock()
 		sd.conns[k.LocalAddr().String()] = c
 		sd.mu.Unlock()
@@ -169,17 +202,49 @@ func sdOpen(n, q, nconn int) *sdRun {
 				}
 				sd.mu.Unlock()
 			}()
+			if x.hold[c] != nil {
+				<-x.hold[c]
+				if !gone() {
+					rec.Emit("ClientReads", "c", c)
+				}
+			}
 			hdr := make([]byte, 4)
+			buf := make([]byte, 1<<16)
 			for {
-				if _, err := io.ReadFull(k, hdr); err != nil {
+				if n, err := io.ReadFull(k, hdr); err != nil {
 					if !gone() {
+						if n > 0 { // the stream ended inside a frame header
+							rec.Emit("RespCut", "c", c, "r", 0, "got", n, "want", 0)
+						}
 						rec.Emit("PeerEOF", "c", c)
 					}
 					return
 				}
-				body := make([]byte, binary.BigEndian.Uint32(hdr)-4)
-				if _, err := io.ReadFull(k, body); err != nil {
+				want := int(binary.BigEndian.Uint32(hdr))
+				blen := want - 4
+				head := blen
+				if head > 8 {
+					head = 8
+				}
+				body := make([]byte, head)
+				n, err := io.ReadFull(k, body)
+				got := 4 + n
+				r := 0
+				if n >= 4 && blen >= 8 {
+					r = int(binary.BigEndian.Uint32(body[0:4]))
+				}
+				for err == nil && got < want { // the padding of a large response
+					m := want - got
+					if m > len(buf) {
+						m = len(buf)
+					}
+					m, err = io.ReadFull(k, buf[:m])
+					got += m
+				}
+				if err != nil {
 					if !gone() {
+						// the stream ended inside a response: the connection was closed before the response had been written
+						rec.Emit("RespCut", "c", c, "r", r, "got", got, "want", want)
 						rec.Emit("PeerEOF", "c", c)
 					}
 					return
@@ -187,13 +252,13 @@ func sdOpen(n, q, nconn int) *sdRun {
 				if gone() {
 					return
 				}
-				if len(body) == 4 && body[0] == 0xff {
+				if blen == 4 && body[0] == 0xff {
 					sd.mu.Lock()
 					sd.noted[c] = true
 					sd.mu.Unlock()
 					rec.Emit("CloseMsgRecv", "c", c)
-				} else if len(body) >= 8 {
-					rec.Emit("RespRecv", "c", c, "r", int(binary.BigEndian.Uint32(body[0:4])))
+				} else if blen >= 8 {
+					rec.Emit("RespRecv", "c", c, "r", r)
 				}
 			}
 		}(c, k)
@@ -203,18 +268,29 @@ func sdOpen(n, q, nconn int) *sdRun {
 }
 
 // send writes the next request of connection c: handler duration d ms, one-way or not
-func (x *sdRun) send(c int, d uint32, oneway bool) int {
+func (x *sdRun) send(c int, d uint32, oneway bool) int { return x.sendSized(c, d, oneway, 0) }
+
+// sendSized: the response is to have size bytes (0: the default 12)
+func (x *sdRun) sendSized(c int, d uint32, oneway bool, size uint32) int {
 	x.ord[c]++
 	r := 10*c + x.ord[c]
-	p := make([]byte, 16)
-	binary.BigEndian.PutUint32(p, 16)
+	p := make([]byte, 16, 20)
+	if size > 0 {
+		p = p[:20]
+		binary.BigEndian.PutUint32(p[16:], size)
+	}
+	binary.BigEndian.PutUint32(p, uint32(len(p)))
 	binary.BigEndian.PutUint32(p[4:], uint32(r))
 	binary.BigEndian.PutUint32(p[8:], uint32(c))
 	if oneway {
 		d |= sdOneWay
 	}
 	binary.BigEndian.PutUint32(p[12:], d)
-	x.rec.Emit("ReqSent", "c", c, "r", r, "ow", oneway)
+	if size > 0 {
+		x.rec.Emit("ReqSent", "c", c, "r", r, "ow", oneway, "size", int(size))
+	} else {
+		x.rec.Emit("ReqSent", "c", c, "r", r, "ow", oneway)
+	}
 	x.conns[c].Write(p)
 	return r
 }
@@ -266,6 +342,9 @@ func (x *sdRun) shutdownAsync(k int, timeout time.Duration) {
 
 func (x *sdRun) finish() []tr.Ev {
 	x.calls.Wait()
+	for c := 1; c <= x.nconn; c++ {
+		x.release(c)
+	}
 	// wait beyond every handler duration so that "never answered" is not "not yet answered"
 	done := make(chan struct{})
 	go func() { x.readers.Wait(); close(done) }()
@@ -476,6 +555,84 @@ func sdMix(rng *rand.Rand, n, q int, ctxTimeout time.Duration) []tr.Ev {
 	return x.finish()
 }
 
+// sdSlow: responses that do not fit into the socket buffers, to clients that are slow to read them.  Connection 1 (and, in
+// some runs, connection 2) has a client with a 64 KiB receive buffer that starts reading only 1.2-3.2 s after Shutdown was
+// called; its 1-3 requests ask for responses of 1-16 MiB: when Shutdown is called their handlers have returned from invoke
+// and are blocked in (or, behind the first one / in the pool's queue, waiting to enter) conn.Write, while the shutdown
+// poller and the recv loop's deferred close look at the connection's in-flight counter every 500 ms.  Every request read
+// must reach its client complete before the connection is closed.  A fast second connection carries ordinary requests.
+//
+// idle runs (the server has a read timeout of 1 s and no idle allowance: a connection with nothing buffered and nothing
+// outstanding is closed at its next read timeout, the "idle close"):
+//
+//	plan A: the slow client starts reading 1.3-2.6 s after its requests were sent (one or two read timeouts of the recv
+//	        loop pass while the handler is blocked in conn.Write); Shutdown is called after the connection has drained;
+//	plan B: as in the ordinary runs, Shutdown is called while the handlers are blocked in conn.Write.
+//
+// Every third run (sc % 3 == 1; not plan A) is a "short" run: the first call of Shutdown has a context of 500 ms and the
+// slow clients start reading 3.6 s after it began ("... or when its context expires, whichever is first"); a second call
+// with the long context follows when the first has returned.
+func sdSlow(rng *rand.Rand, sc, n, q int, ctxTimeout time.Duration, idle bool) []tr.Ev {
+	nconn := 1 + rng.Intn(2)
+	slow := map[int]bool{1: true}
+	if nconn == 2 && rng.Intn(3) == 0 {
+		slow[2] = true
+	}
+	x := sdOpenOpt(n, q, nconn, sdOpt{slow: slow, idle: idle})
+	sizes := []uint32{1 << 20, 2 << 20, 4 << 20, 8 << 20, 16 << 20}
+	durs := []uint32{0, 0, 30, 150}
+	for c := 1; c <= nconn; c++ {
+		if slow[c] {
+			for i := 1 + rng.Intn(3); i > 0; i-- {
+				x.sendSized(c, durs[rng.Intn(len(durs))], false, sizes[rng.Intn(len(sizes))])
+			}
+		} else {
+			for i := rng.Intn(3); i > 0; i-- {
+				x.send(c, durs[rng.Intn(len(durs))], rng.Intn(6) == 0)
+			}
+		}
+		if rng.Intn(3) == 0 {
+			time.Sleep(time.Duration(rng.Intn(20)) * time.Millisecond)
+		}
+	}
+	short := sc%3 == 1
+	if idle && sc%3 == 2 { // plan A (every third run of an idle server)
+		time.Sleep(time.Duration([]int{1300, 1800, 2600}[rng.Intn(3)]) * time.Millisecond)
+		for c := range slow {
+			x.release(c)
+		}
+		time.Sleep(2300 * time.Millisecond) // the connections have drained and have been closed as idle
+		x.shutdown(1, ctxTimeout)
+		return x.finish()
+	}
+	// the handlers are through invoke and blocked in conn.Write (or queued behind those that are)
+	time.Sleep(time.Duration([]int{200, 250, 400}[rng.Intn(3)]) * time.Millisecond)
+	late := time.Duration([]int{1200, 1800, 2500, 3200}[rng.Intn(4)]) * time.Millisecond
+	if short {
+		late = 3600 * time.Millisecond
+	}
+	x.calls.Add(1)
+	go func() {
+		defer x.calls.Done()
+		time.Sleep(late)
+		for c := range slow {
+			x.release(c)
+			time.Sleep(time.Duration(rng.Intn(2)*300) * time.Millisecond)
+		}
+	}()
+	if short {
+		x.shutdown(1, 500*time.Millisecond)
+		x.shutdown(2, ctxTimeout)
+		return x.finish()
+	}
+	plan := 0
+	if rng.Intn(4) == 0 {
+		plan = 1 + rng.Intn(3)
+	}
+	sdCalls(x, rng, plan, ctxTimeout)
+	return x.finish()
+}
+
 func shutdownTrace(args []string) error {
 	fs := flag.NewFlagSet("shutdown-trace", flag.ExitOnError)
 	seed := fs.Int64("seed", 1, "seed")
@@ -485,7 +642,8 @@ func shutdownTrace(args []string) error {
 	out := fs.String("out", "trace.ndjson", "output")
 	ctxMs := fs.Int("ctx", 4000, "Shutdown context timeout in ms")
 	abortAll := fs.Bool("abort", false, "every scenario: two clients, the first vanishes with a reset while its request is running")
-	kind := fs.String("kind", "base", "base: 1-2 connections, one call of Shutdown; twice: several calls of Shutdown; mix: 3-6 connections in different states")
+	kind := fs.String("kind", "base", "base: 1-2 connections, one call of Shutdown; twice: several calls of Shutdown; mix: 3-6 connections in different states; "+
+		"slow: responses of 1-16 MiB to clients that start reading seconds after Shutdown began; slowidle: the same on a server with read and idle timeouts")
 	only := fs.Int("only", -1, "run only this scenario (each scenario has its own random stream: the same script as in the full run)")
 	fs.Parse(args)
 	vhook.Set(sdHook)
@@ -504,6 +662,8 @@ func shutdownTrace(args []string) error {
 			evs = sdTwice(rng, *pool, *qcap, time.Duration(*ctxMs)*time.Millisecond)
 		case "mix":
 			evs = sdMix(rng, *pool, *qcap, time.Duration(*ctxMs)*time.Millisecond)
+		case "slow", "slowidle":
+			evs = sdSlow(rng, i, *pool, *qcap, time.Duration(*ctxMs)*time.Millisecond, *kind == "slowidle")
 		default:
 			evs = sdScenario(rng, *pool, *qcap, time.Duration(*ctxMs)*time.Millisecond, *abortAll)
 		}
